@@ -105,6 +105,9 @@ pub fn cases(prop: &str, tier: Tier, seed: u64) -> Vec<CaseDesc> {
         }
         "C01" => {
             out.extend(with_scenario(disk_corpus(false), "rt:emit"));
+            for (p, nq, nt) in [("exec", 3000, 120_000), ("execmvp", 600, 20_000), ("gcgraph", 600, 20_000)] {
+                out.extend(with_scenario(g(p, nq, nt), "rt:emit"));
+            }
         }
         _ => {}
     }
